@@ -101,11 +101,12 @@ ASSUMPTIONS = [
     "Split is built with bufsize=None (the whole flow is one buffer), Cache with recompute=True and at most one Cache in a "
     "tree whose flow is run (an existing cache file would replace the flow: C18), flow data are ints (Write passes them on)",
 ]
-RULE = ("quick: two directed families (~290 trees for run-time aliasing of static context: nested static key, "
+RULE = ("quick: three directed families (~290 trees for run-time aliasing of static context: nested static key, "
         "UpdateContextFromStatic/MakeFilename, a later in-place update of the run-time context by a user mutator, a second "
         "UpdateContextFromStatic or MakeFilename, three values; ~100 trees for FillComputeSeq / FillRequestSeq nodes, tuple "
         "branches that Split converts into them, branches given as bare elements, and Splits constructed while the caches "
-        "of their branches exist); all trees with <= 2 leaves over 10 leaf kinds (SetContext constant / formatting / "
+        "of their branches exist; ~350 trees with static keys below `output` followed by MakeFilename prefix / suffix / "
+        "filename methods, values with and without a run-time `output` key); all trees with <= 2 leaves over 10 leaf kinds (SetContext constant / formatting / "
         "nested key, StoreContext, UpdateContextFromStatic, MakeFilename, Write, Cache, plain element, run-time mutator), "
         "depth <= 2, Sequence and Source tops; 6000 seeded trees with 3 leaves over 7 leaf kinds; 4000 seeded random trees "
         "of depth <= 3 (Sequence / Source / FillComputeSeq / FillRequestSeq / tuple / bare-element branches, 0-3 Split "
@@ -949,9 +950,15 @@ def rand_mkf(rng):
     return node
 
 
+OUT_STATIC_KEYS = ["output.prefix", "output.suffix", "output.filename", "output.dirname", "output.fileext"]
+
+
 def rand_leaf(rng, pformat=0.3):
     r = rng.random()
     if r < 0.42:
+        if rng.random() < 0.12:
+            # a static key that MakeFilename's bookkeeping must not take for a run-time one
+            return {"k": "set", "key": rng.choice(OUT_STATIC_KEYS), "val": rng.choice(["SP_", "_SS", "st", "s"])}
         v = _tpl(rng) if rng.random() < pformat else rng.choice(CONSTS)
         return {"k": "set", "key": rng.choice(KEYS), "val": v}
     if r < 0.58:
@@ -1157,7 +1164,8 @@ def _renders_dict(tree, flow=None):
 
 FLOWS = [[{"r": 0}], [{"r": 0}, {"a": "rt", "r": 1}], [], [{"output": {"filename": "given"}}, {"b": {"y": 7}}],
          [{"output": {"prefix": "P_", "suffix": "_S", "x": 1}, "c": "rc"}, {"output": {"suffix": ""}, "a": {"x": 5}}],
-         [{}, {}, {}], [{"r": 0}, {"c": "rc"}, {"r": 2}]]
+         [{}, {}, {}], [{"r": 0}, {"c": "rc"}, {"r": 2}],
+         [{}, {"output": {"prefix": "R_", "suffix": "_R"}}, {"c": "rc"}]]
 
 
 def _flow_for(tree, flow):
@@ -1252,6 +1260,37 @@ def seqtype_cases():
             t = {"k": "seq", "kind": "Sequence", "c": [{"k": "split", "c": [{"k": "seq", "kind": kind, "c": copy.deepcopy(cs)}]},
                                                        {"k": "store"}]}
             out.append({"tree": t, "flow": None, "variants": [], "precache": True})
+    return out
+
+
+def output_cases():
+    """Directed family for static keys below `output`: SetContext("output.prefix"/"suffix"/"filename"/…) followed by
+    MakeFilename(prefix=…) / MakeFilename(suffix=…) / MakeFilename(filename=…) in sequence (with and without
+    overwrite, with and without an UpdateContextFromStatic in between, flat and in a Split branch), run with values
+    with and without a run-time `output` key: the prefix/suffix bookkeeping of MakeFilename reads the run-time context
+    only, so a static output.prefix may enter the run-time context through UpdateContextFromStatic alone."""
+    out = []
+    statics = [[{"k": "set", "key": "output.prefix", "val": "SP_"}],
+               [{"k": "set", "key": "output.suffix", "val": "_SS"}],
+               [{"k": "set", "key": "output.prefix", "val": "SP_"}, {"k": "set", "key": "output.suffix", "val": "_SS"},
+                {"k": "set", "key": "a", "val": 1}],
+               [{"k": "set", "key": "output.filename", "val": "sf"}, {"k": "set", "key": "output.dirname", "val": "sd"}]]
+    chains = [[{"k": "mkf", "fmt": None, "prefix": "P{{a}}_"}],
+              [{"k": "mkf", "fmt": None, "suffix": "_S"}, {"k": "mkf", "fmt": "hist"}],
+              [{"k": "mkf", "fmt": None, "prefix": "run_", "suffix": "_log"}, {"k": "mkf", "fmt": "h{{a}}", "dirname": "D"}],
+              [{"k": "mkf", "fmt": None, "prefix": "run_", "overwrite": True}, {"k": "mkf", "fmt": "hist", "fileext": "e"}],
+              [{"k": "mkf", "fmt": "hist", "dirname": "D", "fileext": "e"}]]
+    for st in statics:
+        for ch in chains:
+            for mid in ([], [{"k": "ucfs"}], [{"k": "store"}]):
+                body = st + mid + ch
+                for cs in (body, [{"k": "split", "c": [{"k": "seq", "kind": "Sequence", "c": body},
+                                                       {"k": "seq", "kind": "tuple", "c": [{"k": "data"}]}]}],
+                           st + [{"k": "seq", "kind": "Sequence", "c": mid + ch}]):
+                    for kind, flow in (("Sequence", FLOWS[7]), ("Source", [])):
+                        t = {"k": "seq", "kind": kind, "c": ([{"k": "src"}] if kind == "Source" else []) + copy.deepcopy(cs)}
+                        if not _renders_dict(t):
+                            out.append({"tree": t, "flow": _flow_for(t, flow), "variants": []})
     return out
 
 
@@ -1365,6 +1404,7 @@ def gen_cases(ctx):
     rng = ctx.rng
     yield from alias_cases()
     yield from seqtype_cases()
+    yield from output_cases()
     if ctx.tier == "quick":
         yield from exhaustive_cases(2, 2, EX_LEAVES + EX_LEAVES_MORE, source=True)
         yield from sampled_cases(rng, 3, 2, EX_LEAVES, 6000)
